@@ -809,8 +809,22 @@ def t_tnet( ctx ):
     def enc_kind( e ):
         """classify an encoder expression"""
         if e is None: return None
-        m = pmatch( e, 'str( _d ).encode( _e )' )
+        m = pmatch( e, 'str( _d ).encode( _e )' ) or pmatch( e, 'repr( _d ).encode( _e )' )
         if m: return ( 'text', try_fold( m['_e'] ))
+        m = pmatch( e, 'repr( _d ).lower().encode( _e )' )
+        if m: return ( 'lower-repr', try_fold( m['_e'] ))
+        # a number's text post-processed before encoding (strip / replace / slice / fixed precision): lossy
+        if isinstance( e, ast.Call ) and isinstance( e.func, ast.Attribute ) and e.func.attr == 'encode':
+            chain = e.func.value
+            methods = []
+            while isinstance( chain, ast.Call ) and isinstance( chain.func, ast.Attribute ):
+                methods.append( chain.func.attr ); chain = chain.func.value
+            if isinstance( chain, ast.Subscript ):
+                methods.append( '[slice]' ); chain = chain.value
+            if methods and ( pmatch( chain, 'str( _d )' ) or pmatch( chain, 'repr( _d )' )) and set( methods ) <= { 'rstrip', 'lstrip', 'strip', 'replace', 'lower', 'upper', '[slice]', 'split', 'zfill' } - ( { 'lower' } if False else set()):
+                return ( 'lossy-text', tuple( reversed( methods )))
+            if isinstance( chain, ast.BinOp ) and isinstance( chain.op, ast.Mod ) and isinstance( try_fold( chain.left ), str ) and try_fold( chain.left ) not in ( '%r', '%s', '%d' ):
+                return ( 'lossy-text', ( try_fold( chain.left ), ))
         m = pmatch( e, 'repr( _d ).lower().encode( _e )' )
         if m: return ( 'lower-repr', try_fold( m['_e'] ))
         m = pmatch( e, '_d.encode( _e )' )
@@ -836,6 +850,8 @@ def t_tnet( ctx ):
         return ( 'unknown', txt( e ))
     def inverse( tag, ek, dk ):
         """is decoder kind dk the inverse of encoder kind ek for this tag?  None = unrecognised shape"""
+        if ek and ek[0] == 'lossy-text':
+            return False
         if ( ek and ek[0] == 'unknown' ) or dk[0] == 'unknown':
             return None
         if tag == b'#': return ek == ( 'text', 'ascii' ) and dk == ( 'int', )
